@@ -261,3 +261,12 @@ def rule_commit(ctx):
 
 
 RULES.append(("C08.i", "branch-commit: between the decision to perform an effect and the effect there is no way out", rule_commit))
+
+
+def rule_deps(ctx):
+    from . import c20
+    c20.rule_a(ctx)
+    c20.rule_b(ctx)
+
+
+RULES.append(("C08.j", "the queue yields the smallest key first, FIFO among equal keys (C20.a/b): an accepted request fires at its deadline", rule_deps))
